@@ -66,7 +66,26 @@ var namePieces = []string{"a", "b", "c", "ab", "bc", "abc", "1", "x", "doc", "us
 // control characters, no '#', ':', ' ').
 var idPieces = []string{"a", "b", "c", "ab", "bc", "abc", "1", "01", "x", "é", "-", "_", "|", ",", ".", "/", "@", "a|b", "a,b"}
 
+// boundary lengths of the uvarint length prefix (1 -> 2 bytes at 128, 2 -> 3 bytes at 16384) and of a byte
+var boundaryLens = []int{127, 128, 129, 255, 256, 16383, 16384}
+
+// padBoundary stretches v, in one of forty draws, to a length at which the length prefix changes size.
+func padBoundary(s src, label, v string) string {
+	if !chance(s, label+".boundary", 1, 40) {
+		return v
+	}
+	n := pick(s, label+".boundaryLen", boundaryLens)
+	if len(v) >= n {
+		return v
+	}
+	return v + strings.Repeat("a", n-len(v))
+}
+
 func genStr(s src, label string) string {
+	return padBoundary(s, label, genStrShort(s, label))
+}
+
+func genStrShort(s src, label string) string {
 	var sb strings.Builder
 	for i, k := 0, s.n(4, label+".len"); i < k; i++ {
 		if chance(s, label+".tricky", 2, 5) {
@@ -86,8 +105,8 @@ func genFrom(s src, label string, pieces []string, min int) string {
 	return sb.String()
 }
 
-func genName(s src, label string) string { return genFrom(s, label, namePieces, 1) }
-func genID(s src, label string) string   { return genFrom(s, label, idPieces, 1) }
+func genName(s src, label string) string { return padBoundary(s, label, genFrom(s, label, namePieces, 1)) }
+func genID(s src, label string) string   { return padBoundary(s, label, genFrom(s, label, idPieces, 1)) }
 
 var storePool = []string{"01HXSTORE0000000000000000A", "01HXSTORE0000000000000000B", "s", "S", "store"}
 
